@@ -26,6 +26,10 @@ PROP = dict(
           "sequences (at least one request of 8 KiB..1 MiB) on a fresh thread while that thread receives SIGUSR2 (counting handler "
           "installed with SA_RESTART, previous disposition restored afterwards) every 10..500 us; same oracle as random_data "
           "(normal return - an exception is the clause random-data-threw -, guard bytes, no untouched run, size). "
+          "random_data_nofd: ambient state 'the entropy source cannot be opened at the process's first random_data call': the harness re-executes itself, the fresh process makes an empty directory "
+          "its root (chroot: open(/dev/urandom) fails with ENOENT, verified with a probe open), then runs a request sequence (1..5 requests: the usual sizes, whole multiples of 16/64/256/512/1024/4096, 2^k and 2^k+-1 from 1 byte to 64 KiB; "
+          "in a third of the cases the process returns to the real root before request j) with the oracle 'each call throws, or fills every requested byte' (guard bytes, no untouched head / tail / run, size); "
+          "24 sizes x {first request; second request still inside the empty root; second request back in the real root} are enumerated. "
           "Non-trivial: gcd pairs with gcd>1 and both operands>1; "
           "log2i arguments adjacent to a power of two; random_int ranges wider than one value; random_data sequences of >=3 calls or "
           ">4096 bytes; random_data_sig cases in which at least one signal was delivered; vector pairs that are distinct and non-zero, or (double) equal as values but different in the sign of a zero; "
@@ -37,6 +41,9 @@ PROP = dict(
                  "integer matrices with entries in [-9,9] so that the double accumulation in Matrix4::operator* is exact",
                  "random_data non-constancy tests have a false-alarm probability below 2^-120 per case",
                  "diagonally dominant double matrices are kept within global scales 2^-900..2^900 so that neither M nor inverse(M) leaves the normal double range",
+                 "random_data where /dev/urandom cannot be opened (subcheck random_data_nofd): a call may throw (nothing is claimed to be filled then); a call that returns normally must have filled every requested byte. "
+                 "The state is produced with chroot into an empty directory in a re-executed copy of the harness (needs root); an exhausted descriptor table (EMFILE) is not produced "
+                 "(UBSan's vptr check needs a pipe and misfires without descriptors)",
                  "random_data under signals: only handlers installed with SA_RESTART (the transparent kind; the framework's own SIGPROF watchdog is one); "
                  "whether a signal lands inside a particular read is timing dependent, so a random_data_sig failure seen in a shard need not replay from the single case"],
     min_evaluations_quick=100000,
